@@ -2662,12 +2662,23 @@ pub fn freeze(env: &mut FreezeEnv, expr: &LocExpr) -> NRes<LocExpr> {
                 Ok(Expr::Coalesce(box_freeze(env, lhs)?, box_freeze(env, rhs)?))
             }
             Expr::Assign(every, pat, rhs) => {
+                // A recursive function must see its own name, so a lambda on the right-hand side is
+                // frozen after binding. Any other right-hand side is evaluated before the
+                // declaration takes effect and still refers to the outer bindings, so it has to
+                // be frozen before the declared names shadow them (`x := x + 1`).
+                let early_rhs = match &rhs.expr {
+                    Expr::Lambda(..) => None,
+                    _ => Some(box_freeze(env, rhs)?),
+                };
                 // have to bind first so box_freeze_lvalue works
-                // also recursive functions work ig
                 env.bind(pat.collect_identifiers(true /* declared_only */));
 
                 let lvalue = box_freeze_lvalue(env, pat)?;
-                Ok(Expr::Assign(*every, lvalue, box_freeze(env, rhs)?))
+                let rhs = match early_rhs {
+                    Some(r) => r,
+                    None => box_freeze(env, rhs)?,
+                };
+                Ok(Expr::Assign(*every, lvalue, rhs))
             }
             Expr::Annotation(s, t) => Ok(Expr::Annotation(
                 box_freeze(env, s)?,
